@@ -98,6 +98,10 @@ func (bq *Queue[Q]) Run() {
 			h := bq.chain.Height()
 			pos := bq.indexToPosition(h + 1)
 			bq.queueLock.Lock()
+			// The chain can move (consensus) and the slot can be reused by Put
+			// before the lock is taken, so look at the current height's slot.
+			h = bq.chain.Height()
+			pos = bq.indexToPosition(h + 1)
 			b := bq.queue[pos]
 			// The chain moved forward using elements from other sources (consensus).
 			for i := lastHeight; i < h; i++ {
